@@ -21,6 +21,7 @@ def run(chk):
     T.campaign(chk, 220 if thorough else 40, "close", mons)
     T.campaign(chk, 120 if thorough else 20, "mixed", mons)
     extra(chk, thorough)
+    extra_reset(chk)
     chk.assumptions = ["events are injected at quiescent points of the asyncio loop only (cancellation / I/O landing between two "
                        "loop iterations of one settle is outside the model)", "CPython asyncio Lock/Event/Future and async_timeout "
                        "semantics are modelled by the macro-step semantics of Api.v, not verified"]
@@ -77,3 +78,59 @@ def extra(chk, thorough):
     chk.oblige("monitor:close/loss-at-every-quiescent-point(%d)" % n, bad is None, json.dumps(bad)[:300] if bad else "")
     if bad:
         chk.violation(bad[1], {"events": bad[0]}, key="close-point")
+
+
+def extra_reset(chk):
+    """The REAL reset procedure (api.reset()): the link drops at every quiescent point of it - the application is not told
+    while the reset is in progress, and is told exactly once for a loss after the reset has completed."""
+    import api_common as A
+    bad = None
+    n = 0
+    for pre in ([], [("issue", 1, "nb1"), ("ack", -1)], [("issue", 1, "b1")]):
+        for acked in (False, True):
+            for wait in (0, 300):
+                evs = list(pre) + [("reset",)]
+                if pre == [("issue", 1, "b1")]:
+                    evs += [("ack", -1)]          # the pending request's frame is acknowledged, the reset frame goes out
+                if acked:
+                    evs += [("ack", -1)]
+                if wait:
+                    evs += [("tick", wait)]
+                mark = len(evs)
+                evs += [("lost",), ("tick", 1000), ("tick", 1000), ("tick", 1000), ("tick", 6000), ("tick", 6000)]
+                r = A.Runner()
+                try:
+                    steps = []
+                    for e in evs:
+                        if e == ("ack", -1):
+                            e = ("ack", r.proto._pack_seq)
+                        steps.append(r.step(e))
+                    during = sum(st.count("L") for st in steps)
+                    done = r.real_reset.done()
+                    exc = None
+                    if done and not r.real_reset.cancelled():
+                        exc = r.real_reset.exception()
+                    # after the reset has completed (reconnected) a loss is reported, exactly once
+                    after = None
+                    if done and exc is None:
+                        a1 = r.step(("lost",)).count("L")
+                        a2 = r.step(("tick", 1000)).count("L")
+                        after = a1 + a2
+                finally:
+                    r.close()
+                n += 1
+                chk.evaluations += 1
+                m = None
+                if during != 0:
+                    m = "the application was told about a connection loss %d time(s) while a deliberate reset was in progress" % during
+                elif not done:
+                    m = "reset() never completed after the link dropped and came back"
+                elif exc is not None:
+                    m = "reset() failed: %r" % exc
+                elif after != 1:
+                    m = "a connection loss after the completed reset was reported %d times (expected exactly once)" % after
+                if m is not None and bad is None:
+                    bad = ([str(e) for e in evs], m, mark)
+    chk.oblige("monitor:real-reset-procedure-x-loss-at-every-point(%d)" % n, bad is None, json.dumps(bad)[:300] if bad else "")
+    if bad:
+        chk.violation(bad[1], {"events": bad[0], "loss_injected_at_index": bad[2]}, key="reset-loss")
